@@ -5,7 +5,7 @@
    later duplicates win, maps merge, null empties a map), so [k_attrs k] IS
    "the attributes that appear in the payload's attributes object". *)
 From JV Require Import Model.Base Model.GoTime Gen.TypeGo Model.Schema Model.Value
-  Model.Json Model.SoftRes Model.Unmarshal Proofs.C14Facts Proofs.C13Facts.
+  Model.Json Model.SoftRes Model.Unmarshal Proofs.C14Facts Proofs.C13Facts Proofs.C13Rels.
 
 (* accepted by partial unmarshaling iff accepted by full unmarshaling (and a
    panic on one side is a panic on the other); proved for schemas of soft
@@ -37,9 +37,21 @@ Theorem C13_attrs_exact : forall e s j p,
 Proof. exact partial_attrs_exact. Qed.
 Print Assumptions C13_attrs_exact.
 
-(* NOT PROVED here (correspondence + oracle only): the analogous statement for
-   relationships ("exactly those whose object carries a data member") and
-   "each with the value full unmarshaling gives it". *)
+(* exactly the relationships whose object carries a data member
+   ([with_data]: the keys of the payload's relationships object whose value
+   has a "data" member, null included), each with the schema's definition *)
+Theorem C13_rels_exact : forall e s j p,
+  unmarshal_partial e s j = Ok p ->
+  exists k, dec_resske j = Some k /\
+    (wf_type (get_type (sch_schema s) (k_type k)) ->
+     (forall n, In n (map fst (trels (s_type p))) <-> In n (with_data (k_rels k))) /\
+     (forall n x, In (n, x) (trels (s_type p)) ->
+                  lookup n (trels (get_type (sch_schema s) (k_type k))) = Some x)).
+Proof. exact partial_rels_exact. Qed.
+Print Assumptions C13_rels_exact.
+
+(* NOT PROVED here (correspondence + oracle only): "each with the value full
+   unmarshaling gives it". *)
 
 Example c13_example :
   let e := tbl_env [] [] [] [] in
